@@ -1,6 +1,6 @@
 #!/bin/sh
 # confirm_seed.sh <ID> <A|B> : confirm a sub-agent's seeded change in its scratch worktree, then keep it under /verif/seeded/
-ID=$1; V=$2; W=/tmp/seed/$ID; S=/tmp/seed/out/$ID/$V; D=/verif/seeded/$ID$V
+ID=$1; V=$2; W=/tmp/seed/$ID; [ -d $W ] || git -C /repo worktree add -q --detach $W 93b42bf; S=/tmp/seed/out/$ID/$V; D=/verif/seeded/$ID$V
 cd $W || exit 2
 git checkout -q -- . && git clean -fdq
 git apply --check $S/patch.diff || { echo "patch does not apply"; exit 1; }
